@@ -1337,6 +1337,10 @@ class SpaceManager(SharedSpaceOperations):
             # Clear parent's dynsub, not s's
             space.parent.clear_subs_rootitems()
 
+        # Clear dynsubs whose bases are the renamed spaces
+        for node in mapping:
+            self._graph.to_space(node).clear_subs_rootitems()
+
         # Call on_rename callbacks
         space.on_rename(name)
 
@@ -1695,6 +1699,9 @@ class SpaceUpdater(SharedSpaceOperations):
         if container is None:
             container = parent._named_spaces
 
+        if not parent.is_model():
+            parent.clear_subs_rootitems()
+
         space = UserSpaceImpl(
             parent,
             name,
@@ -1808,6 +1815,9 @@ class SpaceUpdater(SharedSpaceOperations):
 
         if node not in self.manager._graph:
             raise ValueError("Space '%s' not found" % node)
+
+        if not space.parent.is_model():
+            space.parent.clear_subs_rootitems()
 
         # Remove node and its child tree
         nodes_removed = list()
